@@ -9,6 +9,8 @@ from ..mon import hooks
 from ..mon.client import call
 from . import topo
 
+from ..ctx import level_of
+
 ID = "C16"
 
 
@@ -108,7 +110,7 @@ def run(case, ctx):
         return
     version, lines = case["version"], case["lines"]
     rng = random.Random(case["seed"])
-    r = call(ctx, "Gfa(list)", gfapy.Gfa, lines, version=version)
+    r = call(ctx, "Gfa(list)", gfapy.Gfa, lines, version=version, vlevel=level_of(ctx, lines))
     if not r.ok:
         ctx.violation("valid-document-refused/%s" % r.cls(), "%r: %s" % (lines, str(r.exc)[:200]), prop="C01")
         return
